@@ -74,6 +74,10 @@ def validate_pipeline_traces(run, traced, label="pipeline_trace_validation", min
         return j, r
     with ThreadPoolExecutor(max_workers=max(2, NCPU // 2)) as ex:
         res = list(ex.map(one, jobs))
+    # a validator that gave no verdict while many ran side by side (a starved JVM) is run once more on its own, with a longer limit
+    def _verdict(r):
+        return bool(r.violation) or any(x.startswith('<<"ACCEPTED"') or x.startswith('<<"REJECTED"') for x in r.prints)
+    res = [(j, r) if _verdict(r) else one(j) for j, r in res]
     acc, rej, states = 0, [], 0
     lanes, writes, multi = 0, 0, 0
     for (ri, ii, path, inst, desc), r in res:
